@@ -18,7 +18,7 @@ import (
 // model of the resumption policy (DESIGN.md Appendix D).
 
 var resFaults = []string{"rotate-keep-old", "rotate-drop-old", "restart-keep-key", "restart-lose-key", "change-suites", "change-client-auth", "disable-tickets", "enable-tickets", "evict-by-other-name", "other-server-shared-key", "other-server-own-key",
-	"ticket-byte-flip", "ticket-truncated", "ticket-extended", "ticket-suite-not-offered", "ticket-genuine-via-reference-client", "ticket-from-dropped-key", "clock-jump"}
+	"change-max-version", "ticket-byte-flip", "ticket-truncated", "ticket-extended", "ticket-suite-not-offered", "ticket-genuine-via-reference-client", "ticket-from-dropped-key", "clock-jump"}
 var resReach = []string{"resumed", "full-handshake", "resumed-with-old-key-ticket-refreshed", "fallback-after-rotation", "fallback-after-restart", "fallback-suite-change", "fallback-client-auth", "fallback-tickets-off", "fallback-evicted", "fallback-forged-ticket", "completeness-checked", "soundness-checked", "master-equal-checked", "wire-decoded-resumed", "gm-mode", "tls-mode", "client-cert-in-ticket", "history>=4"}
 
 func init() {
@@ -32,6 +32,7 @@ type resSrv struct {
 	suites     []uint16
 	policy     gmtls.ClientAuthType
 	ticketsOff bool
+	maxVers    uint16 // TLS mode: 0 = default (TLS 1.2)
 	ent        *simkit.Stream
 	keylog     *bytes.Buffer
 }
@@ -43,6 +44,7 @@ type issuedTicket struct {
 	master     []byte
 	clientCert bool
 	cfgSig     string // configuration of the issuing server at issue time
+	name       string // server name the client dialled when the ticket was issued
 	peerCerts  [][]byte
 }
 
@@ -54,7 +56,7 @@ func keyBytes(seed uint64, gen int) [32]byte {
 }
 
 func (sv *resSrv) sig() string {
-	return fmt.Sprintf("keys=%v suites=%x policy=%d off=%v", sv.keys, sv.suites, sv.policy, sv.ticketsOff)
+	return fmt.Sprintf("keys=%v suites=%x policy=%d off=%v maxvers=%x", sv.keys, sv.suites, sv.policy, sv.ticketsOff, sv.maxVers)
 }
 
 // plainHandshake returns the plaintext handshake messages of a captured
@@ -114,6 +116,7 @@ func runResumption(c *simkit.Choice, r *simkit.Rec) {
 			cfg.ClientCAs = pki.Pool("rsaCA")
 		}
 		cfg.CipherSuites = sv.suites
+		cfg.MaxVersion = sv.maxVers
 		kb := keyBytes(seed, sv.keys[0])
 		cfg.SessionTicketKey = kb
 		if len(sv.keys) > 1 {
@@ -151,6 +154,9 @@ func runResumption(c *simkit.Choice, r *simkit.Rec) {
 	}
 	// eviction target: another name, its own key
 	evict := &resSrv{name: "E", keys: []int{1000}, ent: simkit.NewStream(seed + 999), keylog: &bytes.Buffer{}, suites: allSuites}
+	if sharedKey {
+		evict.keys = []int{srvs[0].keys[0]} // the other name is served by the same farm (same ticket key)
+	}
 	mkCfg(evict)
 	if gm {
 		evict.cfg.Certificates = gmServerCerts("srv2-sign", "srv2-enc")
@@ -258,7 +264,7 @@ func runResumption(c *simkit.Choice, r *simkit.Rec) {
 	violated := func() bool { return r.Violation() != nil }
 
 	// judge evaluates one finished connection against the model.
-	judge := func(step int, sv *resSrv, out *connOut, viaRef bool, forged bool, offeredSuites []uint16) {
+	judge := func(step int, sv *resSrv, out *connOut, viaRef bool, forged bool, offeredSuites []uint16, dialled string) {
 		site := fmt.Sprintf("%s/step%d", map[bool]string{true: "gmssl", false: "tls"}[gm], step)
 		site = map[bool]string{true: "gmssl", false: "tls"}[gm]
 		chs := plainHandshake(out.c2s)
@@ -299,6 +305,10 @@ func runResumption(c *simkit.Choice, r *simkit.Rec) {
 			}
 		}
 		it := issued[string(offered)]
+		if it != nil && !viaRef && it.name != dialled {
+			fail("foreign-session-offered", site, fmt.Sprintf("while dialling %q the client offered a ticket it had obtained from %q (session cache mixes server names)", dialled, it.name))
+			return
+		}
 		inKeys := func(g int) bool {
 			for _, k := range sv.keys {
 				if k == g {
@@ -308,6 +318,9 @@ func runResumption(c *simkit.Choice, r *simkit.Rec) {
 			return false
 		}
 		vers := uint16(gmtls.VersionTLS12)
+		if sv.maxVers != 0 {
+			vers = sv.maxVers
+		}
 		if gm {
 			vers = gmtls.VersionGMSSL
 		}
@@ -478,13 +491,25 @@ func runResumption(c *simkit.Choice, r *simkit.Rec) {
 					pcs = append(pcs, x.Raw)
 				}
 			}
-			issued[string(nst)] = &issuedTicket{gen: sv.keys[0], vers: vers, suite: suite, master: master, clientCert: ccert, cfgSig: sv.sig(), peerCerts: pcs}
+			issued[string(nst)] = &issuedTicket{gen: sv.keys[0], vers: vers, suite: suite, master: master, clientCert: ccert, cfgSig: sv.sig(), peerCerts: pcs, name: dialled}
 			issuedOrder = append(issuedOrder, string(nst))
 		}
 	}
 
 	// keep the histories "correctly configured": client and every server always share a suite
 	fixSuites := func() {
+		if !gm {
+			// with version caps in play, a suite usable below TLS 1.2 must stay common
+			if !contains(clientSuites, 0x002f) {
+				clientSuites = append(append([]uint16(nil), clientSuites...), 0x002f)
+			}
+			for _, sv := range srvs {
+				if sv.maxVers != 0 && sv.maxVers < gmtls.VersionTLS12 && sv.suites != nil && !contains(sv.suites, 0x002f) {
+					sv.suites = append(append([]uint16(nil), sv.suites...), 0x002f)
+					mkCfg(sv)
+				}
+			}
+		}
 		for _, sv := range srvs {
 			if sv.suites == nil {
 				continue
@@ -504,7 +529,7 @@ func runResumption(c *simkit.Choice, r *simkit.Rec) {
 		for step := 0; step < nops && !violated() && r.HarnessErr == ""; step++ {
 			fixSuites()
 			sv := srvs[c.Choose(len(srvs), simkit.LOp)]
-			op := c.Weighted([]int{10, 2, 2, 2, 2, 2, 1, 2, 3, 1}, simkit.LOp)
+			op := c.Weighted([]int{10, 2, 2, 2, 2, 2, 1, 3, 3, 1, 2}, simkit.LOp)
 			if step == 0 {
 				op = 0
 			}
@@ -519,7 +544,7 @@ func runResumption(c *simkit.Choice, r *simkit.Rec) {
 					}
 				}
 				out := connect(fmt.Sprint(step), sv, mkClient("server.sim", clientSuites), nil)
-				judge(step, sv, out, false, false, clientSuites)
+				judge(step, sv, out, false, false, clientSuites, "server.sim")
 			case 1: // rotate
 				keep := c.Bool(1, 2, simkit.LFault)
 				g := nextGen
@@ -583,9 +608,7 @@ func runResumption(c *simkit.Choice, r *simkit.Rec) {
 				r.Fault(idx(resFaults, "evict-by-other-name"))
 				if gm {
 					out := connect(fmt.Sprint(step)+"e", evict, mkClient("server2.sim", allSuites), nil)
-					if out.cerr != nil || out.serr != nil {
-						fail("connection-failed", "evict", fmt.Sprintf("connection to the second server name failed: %v / %v", out.cerr, out.serr))
-					}
+					judge(step, evict, out, false, false, allSuites, "server2.sim")
 				}
 			case 8: // forged / foreign ticket through the reference client (GMSSL only)
 				if !gm || len(issuedOrder) == 0 {
@@ -641,8 +664,16 @@ func runResumption(c *simkit.Choice, r *simkit.Rec) {
 				}
 				out := connect(fmt.Sprint(step)+"r", sv, nil, rc)
 				if len(ticket) > 0 || !forged {
-					judge(step, sv, out, true, forged, offer)
+					judge(step, sv, out, true, forged, offer, "server.sim")
 				}
+			case 10: // version cap (TLS mode): a ticket of another version must not be resumed
+				if gm {
+					continue
+				}
+				sv.maxVers = []uint16{0, gmtls.VersionTLS11, gmtls.VersionTLS12, gmtls.VersionTLS10}[c.Choose(4, simkit.LFault)]
+				mkCfgKeepKeys(sv, mkCfg)
+				r.Fault(idx(resFaults, "change-max-version"))
+				history = append(history, fmt.Sprintf("maxvers(%s)=%x", sv.name, sv.maxVers))
 			case 9: // clock jump
 				skew += int64(c.Range(1, 48, simkit.LFault)) * 3600e9
 				r.Fault(idx(resFaults, "clock-jump"))
